@@ -525,7 +525,12 @@ pub fn gen_garbage(rng: &mut Rng) -> String {
 fn invalid_integer_line(rng: &mut Rng) -> String {
     let digits = format!("{}", rng.below(200));
     let hex = format!("{:x}", rng.below(0x2000));
-    let tok = match rng.below(16) {
+    let tok = match rng.below(20) {
+        // Magnitudes around the limits of 32-bit arithmetic: far too large, must be rejected
+        16 => rng.pick(&["2147483647", "2147483648", "2147483649", "4294967295", "4294967296", "99999999999", "-2147483648", "-2147483649"]).to_string(),
+        17 => rng.pick(&["x7FFFFFFF", "x80000000", "xFFFFFFFF", "x100000000", "0xFFFFFFFFF", "-x80000001"]).to_string(),
+        18 => rng.pick(&["o17777777777", "o20000000000", "o37777777777", "b1111111111111111111111111111111", "b11111111111111111111111111111111", "#2147483648"]).to_string(),
+        19 => format!("{}", 2147483640u64 + rng.below(20)),
         0 => format!("--{}", digits),
         1 => format!("+-{}", digits),
         2 => format!("-x-{}", hex),
@@ -627,7 +632,10 @@ pub fn gen_item(rng: &mut Rng, ctx: &Ctx, mix: &Mix) -> Cmd {
                 Cmd::Assembly(Some(gen_loc(rng, ctx, mix.refused_pct, true)))
             }
         }
-        10 => Cmd::Echo(rng.pick(&["hello", "a  b", "step", "x3000 ^ r1", "é!"]).to_string()),
+        10 => Cmd::Echo(
+            rng.pick(&["hello", "a  b", "step", "x3000 ^ r1", "é!", "é é x", "grüü z", "ñ ñ c", "ü", "→→ s", "😀 q", "日本語 exit", "ééé reset"])
+                .to_string(),
+        ),
         11 => Cmd::Help,
         12 => {
             if rng.chance(2, 5) {
